@@ -516,7 +516,7 @@ class DummyOFNexus (object):
     log.warning("%s raised on dummy OpenFlow nexus" % event)
   def raiseEvent (self, event, *args, **kw):
     log.warning("%s raised on dummy OpenFlow nexus" % event)
-  def _disconnect (self, dpid):
+  def _disconnect (self, dpid, con = None):
     log.warning("%s disconnected on dummy OpenFlow nexus",
                 pox.lib.util.dpidToStr(dpid))
 
@@ -835,7 +835,7 @@ class Connection (EventMixin):
       self.info(msg)
     self.disconnected = True
     try:
-      self.ofnexus._disconnect(self.dpid)
+      self.ofnexus._disconnect(self.dpid, self)
     except:
       pass
     if self.dpid is not None:
